@@ -417,7 +417,7 @@ impl Bench {
         write_tree(&self.base(), t);
         set_sentinel(&self.base());
     }
-    pub fn run(&self, p: &Project, t: &Tree, mode: &Mode, sel: &Sel, tn: bool) -> RunObs {
+    pub fn run(&self, _p: &Project, t: &Tree, mode: &Mode, sel: &Sel, tn: bool) -> RunObs {
         self.materialize(t);
         let before = snapshot(&self.base());
         let cfg = Config {
@@ -425,7 +425,7 @@ impl Bench {
             shell_cmd: String::new(),
             inputs: sel.inputs.clone(),
             recursive: sel.recursive,
-            num_threads: p.sources.len() + 4,
+            num_threads: 1, // one worker thread: every task reuses it, so state leaking between tasks through the thread shows deterministically
             mode: mode.clone(),
             verbosity: Verbosity::Quiet,
             trailing_newline: tn,
@@ -988,7 +988,7 @@ fn byte_sweep(rep: &Report, prop: &str) {
                 shell_cmd: String::new(),
                 inputs: sel.inputs.clone(),
                 recursive: sel.recursive,
-                num_threads: p.sources.len() + 4,
+                num_threads: 1, // one worker thread: every task reuses it, so state leaking between tasks through the thread shows deterministically
                 mode: mode.clone(),
                 verbosity: Verbosity::Quiet,
                 trailing_newline: true,
